@@ -5,6 +5,7 @@ import (
 	"reflect"
 	"strings"
 	"time"
+	"unicode"
 
 	sasl "github.com/emersion/go-sasl"
 	"github.com/fluffle/goirc/client"
@@ -84,6 +85,43 @@ func genParam(g G, first bool) string {
 		n = g.Range(8, 40)
 	default:
 		n = g.Range(100, 400)
+	}
+	if g.Pct(25) {
+		// parameters are octets: non-ASCII text (valid UTF-8 whose encodings
+		// contain the bytes 0x85 / 0xA0, which are white space only as Latin-1
+		// code points) and raw high bytes.  No Unicode white space: the claim
+		// excludes it.
+		special := []rune{0xc5, 0xe0, 0x445, 0x420, 0x4e05, 0x105, 0x3a0, 0x2005 + 0x100, 0x1f605}
+		var u []byte
+		for len(u) < n {
+			switch g.Intn(5) {
+			case 0:
+				u = append(u, paramAlpha[g.Intn(len(paramAlpha)-1)])
+			case 1:
+				u = append(u, string(special[g.Intn(len(special))])...)
+			case 2:
+				r := rune(g.Range(0xa1, 0x2fff))
+				if unicode.IsSpace(r) || r == 0x85 {
+					r = 0xe9
+				}
+				u = append(u, string(r)...)
+			case 3:
+				u = append(u, byte(g.Range(0x80, 0xff))) // a raw byte, not valid UTF-8 by itself
+			default:
+				u = append(u, byte(g.Range(0x21, 0x7e)))
+			}
+		}
+		if u[0] == ':' {
+			u[0] = 'x'
+		}
+		// a raw byte followed by continuation bytes may accidentally form a white
+		// space rune (C2 85, C2 A0, E2 80 8x ...): check the decoded form
+		for _, r := range string(u) {
+			if unicode.IsSpace(r) {
+				return "caf\xc3\xa0\xd1\x85" // a fixed in-claim parameter instead
+			}
+		}
+		return string(u)
 	}
 	b := make([]byte, n)
 	for i := range b {
